@@ -50,7 +50,13 @@ def _tag_inplace(d):
   return f
 
 
-CF = {1: lambda cid, ex: {**ex, 't': ex['t'] * 10 + 1}, 2: lambda cid, ex: {**ex, 't': ex['t'] * 10 + 2}}
+def _ctag_inplace(cid, ex):
+  """A client preprocessing fn that modifies the dict it is given and returns that very dict."""
+  ex['t'] = ex['t'] * 10 + 2
+  return ex
+
+
+CF = {1: lambda cid, ex: {**ex, 't': ex['t'] * 10 + 1}, 2: _ctag_inplace}
 BF = {3: _tag(3), 4: _tag_inplace(4)}
 
 
